@@ -250,7 +250,8 @@ let compare_lines k tag model lines =
 (* ---- build case: a record made through the public setters ---- *)
 let run_build k head body lines =
   let ints = List.map int_of_string (List.tl (split_on ':' head)) in
-  let (id, fl, op, rc) = match ints with [a; b; c; d] -> (a, b, c, d) | _ -> (0, 0, 0, 0) in
+  let (id, fl, op, rc, pre) = match ints with
+    | [a; b; c; d] -> (a, b, c, d, -1) | [a; b; c; d; e] -> (a, b, c, d, e) | _ -> (0, 0, 0, 0, -1) in
   let stats = ref [] in
   let note p s = stats := (p ^ (match s with Ok _ -> "0" | Err e -> string_of_z e | UB _ -> "UB")) :: !stats in
   let res = match record_create (z_of_int id) (z_of_int fl) (z_of_int op) (z_of_int rc) with
@@ -317,7 +318,47 @@ let run_build k head body lines =
    | Ok d ->
      let (w, v, x) = model_wvx d in
      compare_lines k "W" (Some w) lines; compare_lines k "V" v lines; compare_lines k "X" x lines;
-     if oracle "C03" then (match get_lines "R " lines with [r] when starts_with "0 " r -> roundtrip_oracle k (after "0 " r) lines | _ -> ())
+     if oracle "C03" then (match get_lines "R " lines with [r] when starts_with "0 " r -> roundtrip_oracle k (after "0 " r) lines | _ -> ());
+     (* the same record as a TCP frame behind [pre] octets that are already in the buffer *)
+     if pre >= 0 then begin
+       let junk = List.init pre (fun i -> n_of_int ((i * 7 + 1) land 255)) in
+       let b0 = if pre = 0 then wb_empty else wb_of_live junk [] false in
+       let rec skipn n l = if n <= 0 then l else match l with [] -> [] | _ :: t -> skipn (n - 1) t in
+       let (f, g) = match write_buf_tcp wfixed d b0 with
+         | Ok (s, b') when int_of_z s = 0 ->
+           let frame = skipn pre (w_live b') in
+           ("0 " ^ hex_of_bytes frame,
+            Some (match dns_parse (skipn 2 frame) (z_of_int 0) with Ok d2 -> "0 " ^ dump_rec d2 | Err e -> string_of_z e | UB _ -> "UB"))
+         | Ok (s, _) -> (string_of_z s ^ " ", None)
+         | Err s -> (string_of_z s ^ " ", None)
+         | UB _ -> ("UB", None) in
+       compare_lines k "F" (Some f) lines; compare_lines k "G" g lines;
+       if oracle "C03" then
+         (match get_lines "R " lines, get_lines "F " lines with
+          | [r], [t] when starts_with "0 " r && starts_with "0 " t ->
+            bump "tcp-frames-built";
+            let nmsg = (String.length t - 2) / 2 - 2 in
+            if contains "BUFFER-CHANGED-ON-ERROR" t || contains "SHORT" t then Printf.printf "FAIL %d tcp-frame %s\n" k (String.sub t 0 (min 80 (String.length t)))
+            else begin
+            if nmsg > 65535 then Printf.printf "FAIL %d tcp-frame-too-long frame carries %d message octets behind %d buffered octets\n" k nmsg pre;
+            (match get_lines "G " lines with
+                | [v] when starts_with "0 " v ->
+                  let a = try Some (undump_rec (after "0 " r)) with _ -> None and b = try Some (undump_rec (after "0 " v)) with _ -> None in
+                  (match a, b with
+                   | Some a, Some b ->
+                     if not (record_eqb a b) && not (record_has_long_txt a) && not (record_has_invalid_name a)
+                        && not (record_rcode_needs_opt a && record_eqb (with_rcode a b.d_rcode) b) then
+                       Printf.printf "FAIL %d tcp-frame-fields behind %d buffered octets: %s\n" k pre (record_diff a b)
+                   | _ -> Printf.printf "FAIL %d tcp-frame-fields undumpable\n" k)
+                | [v] when contains "frame-length-mismatch" v -> Printf.printf "FAIL %d tcp-frame-length-mismatch %s (behind %d buffered octets)\n" k v pre
+                | [v] ->
+                  let known = (match (try Some (undump_rec (after "0 " r)) with _ -> None) with
+                      | Some a -> List.length a.d_qd <> 1 || record_text_unparseable a | None -> false) in
+                  if not known then Printf.printf "FAIL %d tcp-frame-reparse behind %d buffered octets: status=%s\n" k pre v
+                | _ -> Printf.printf "FAIL %d tcp-frame-reparse no reparse line\n" k)
+            end
+          | _ -> ())
+     end
    | _ -> ())
 
 (* ---- tcp case ---- *)
